@@ -49,6 +49,18 @@ CHECKS = {
         text='Real files at seeded cursor positions, typing-state mutations, generated programs and deliberately cyclic cases are pushed through lint/assist/location; the oracle is CPython\'s own parser (E01 iff the text does not parse, with its message and position; SyntaxError from assist/location only when the marked text does not parse; nothing else may escape; results well-formed). Failures are bucketed by root cause so the campaign continues behind each one.',
         design_ref='DESIGN.md section 4 (C08)',
         note='Cannot show termination, only absence of non-termination within 60 s per call on the explored inputs; AST depth > 60 is out of domain; project files other than the edited one are the committed fixtures and the stdlib.'),
+    'C11': dict(
+        technique='property-based testing with a purely textual oracle over corpus bindings and generated layouts (Hypothesis shape templates + token-level re-layout)',
+        category='exploration',
+        text='Every binding supp enumerates, every lint W01/W02 position and every same-file location() result is checked against the text: the identifier (or `except` / `*`) must start exactly there with identifier boundaries, and the three entry points must agree. Shape templates stress exactly what is recovered by text search (imports, def, class) under unusual spacing, continuations, aliases equal to module/member names and `;`-joined statements.',
+        design_ref='DESIGN.md section 4 (C11)',
+        note='ASCII-only lines (ast columns are byte offsets elsewhere); star-imported names expected at the `*`; bindings under a global declaration are checked at token level only.'),
+    'C13': dict(
+        technique='metamorphic property-based testing: layout-only transformations (token-level printer, ast.unparse) with identical-AST guard; comparison of diagnostics and per-read definitions by NAME-token ordinal',
+        category='exploration',
+        text='For each real file and generated program several equivalent layouts are produced; the analysis results must correspond one to one (diagnostics sequence, visible names, undefined flag, definitions). The relation is exact and needs no reference analysis, so any position-comparison bug shows as a difference between two runs of supp itself.',
+        design_ref='DESIGN.md section 4 (C13)',
+        note='Variants that do not parse to the identical AST are discarded and counted (0.2% on this tree); NAME-token ordinals identify bindings across layouts.'),
 }
 
 NOT_YET = 'check not built yet in this session (planned in DESIGN.md section 4); not claimed until its command exists'
